@@ -95,6 +95,9 @@ def to_spec(it):
 
 
 def evaluate(item):
+    if isinstance(item, dict) and item.get("kind") == "wide":
+        from mc.props import wide
+        return wide.eval_c08(item)
     spec = to_spec(item)
     obs = common.run_spec(spec)
     if obs.get("error"):
@@ -122,13 +125,15 @@ def sample(item):
 def run(ctx):
     st = Stats()
     explore(ctx, universe(ctx.tier), "mc.props.c08:evaluate", st, payload=payload, sample_of=sample, timeout=120)
+    from mc.props import wide
+    wide.sweep(ctx, st, "C08")
     common.vacuity_guard(ctx, st)
     cov = st.coverage(
         "product universe: (6 hour sets x 6 day lists x zones x resolutions) + default calendar with 9 leave layouts, x 10 task patterns "
         "(single sub-slot / multi-day tasks, chains, forks, priorities, a team) x {ASAP, project ALAP, task ALAP with explicit slot-aligned ends, task ALAP with ends inside a slot} x "
         "efficiency; states = distinct schedule observations; transitions = placements + bookings; non-trivial = some judged task has "
         ">= 2 slots between its bound (deadline) and its last (first) booked slot")
-    return ctx.finish(cov, ASSUME)
+    return ctx.finish(cov, ASSUME + [wide.NOTE])
 
 
 def replay(path):
